@@ -272,6 +272,7 @@ import BGV
 #print axioms BGV.C19_bfs_scans_nodup
 #print axioms BGV.C19_allpred_scans
 #print axioms BGV.C19_dijkstra_scans
+#print axioms BGV.C19_findAllGeodesics_steps
 #print axioms BGV.C19_reconstruction_steps
 #print axioms BGV.C19_findGeodesics_path_le
 #print axioms BGV.C19_findGeodesicsFromVertex_size
